@@ -134,7 +134,9 @@ func verifTag(key, end string) string {
 
 func (e *VerifEtcd) logf(en VerifLogEntry) {
 	e.lmu.Lock()
-	e.log = append(e.log, en)
+	if len(e.log) < 600 { // a runaway retry loop must not flood the observation
+		e.log = append(e.log, en)
+	}
 	e.lmu.Unlock()
 }
 
